@@ -746,3 +746,15 @@ Proof.
   { apply existsb_exists. exists r. split; [assumption|]. now rewrite Hn, Hi. }
   now rewrite E.
 Qed.
+
+(* one weight row given as a 2-d matrix is the same as giving it as 1-d weights (numpy broadcasting), for a non-empty request *)
+Lemma choice_one_row D U draws c row : draws <> [] -> choice D U draws c (W2 [row]) = choice D U draws c (W1 row).
+Proof.
+  intros Hne. destruct draws as [|d0 ds]; [contradiction|]. unfold choice.
+  change (length (d0 :: ds)) with (S (length ds)). cbn [initial_rows]. rewrite set_residual_repeat. destruct (set_residual U [row]) as [rows| |] eqn:E; try reflexivity.
+  assert (Hrows : rows = [fill U row]) by (apply set_residual_ok in E; exact E). subst rows. cbn [rbind].
+  rewrite existsb_repeat. simpl existsb. rewrite orb_false_r.
+  destruct (sumZ (fill U row) =? 0); [reflexivity|].
+  unfold broadcast at 2. rewrite repeat_length, Nat.eqb_refl.
+  unfold broadcast. simpl length. destruct (length ds) as [|m]; reflexivity.
+Qed.
